@@ -3,6 +3,7 @@ generation (log shapes, operation scripts, faults), execution of the real
 consumer, TLC trace validation, triage."""
 from __future__ import annotations
 
+import os
 import json
 import logging
 import multiprocessing as mp
@@ -16,7 +17,7 @@ C13_EVENTS = {"ResetTo", "AwaitReset", "ErrorSet", "Raised"}
 
 
 def run_mc(rep: Report, ctx, which: str):
-    cfg = tlc.SPEC / "_gen_consumer.cfg"
+    cfg = tlc.SPEC / f"_gen_consumer_{os.getpid()}.cfg"
     seeks, pauses = (2, 1) if ctx.quick else (3, 2)
     cfg.write_text(f"""SPECIFICATION Spec
 CONSTANTS
@@ -36,7 +37,7 @@ CHECK_DEADLOCK FALSE
     rep.add_mc("MC_ConsumerFetch", r, need_actions=["AUseCommitted", "ANoCommitted", "AApplyReset", "ASeek", "ASeekTo",
                                                     "APause", "AResume", "AFetchOK", "AFetchOOR", "AProc", "ATake", "ADrop"])
     if which == "C03":
-        live = tlc.SPEC / "_gen_consumer_live.cfg"
+        live = tlc.SPEC / f"_gen_consumer_live_{os.getpid()}.cfg"
         live.write_text("""SPECIFICATION LiveSpec
 CONSTANTS
   Parts = {p1}
@@ -139,10 +140,19 @@ FETCH_CODES = [6, 3, 5, 7]
 LOOKUP_CODES = {"ListOffsets": [6, 3, 5], "OffsetFetch": [14, 16]}
 
 
+def shape_first(shape):
+    if not shape:
+        return 0
+    b = shape[0]
+    if b["kind"] == "data":
+        return b["base"] if "base" in b else b["offs"][0]
+    return b.get("off", 0)
+
+
 def gen_scenario(rng: random.Random, seed: int, cls: str) -> dict:
     nparts = rng.choice([1, 2, 2, 3])
     nnodes = rng.choice([1, 2, 3])
-    kinds = {"plain": ["plain"], "txn": ["txn"], "legacy": ["legacy"], "reset": ["plain", "txn"],
+    kinds = {"plain": ["plain"], "txn": ["txn"], "legacy": ["legacy"], "reset": ["plain", "txn"], "oor-race": ["plain", "txn"], "late-lookup": ["plain"],
              "filter": ["txn"]}[cls]
     logs, leo = [], []
     for _ in range(nparts):
@@ -188,6 +198,39 @@ def gen_scenario(rng: random.Random, seed: int, cls: str) -> dict:
         sc["tasks"] = [t for t in tasks if t]
     else:
         sc["tasks"] = [gen_ops(rng, nparts, leo, n=rng.randrange(3, 14)) for _ in range(ntasks)]
+    if cls == "late-lookup":
+        # committed-offset lookups that do not start together: one partition has no leader when the others ask the
+        # coordinator, and gets one while that (slow) OffsetFetch is still in flight
+        sc["group"] = True
+        sc["policy"] = rng.choice(["earliest", "latest", "none"])
+        sc["faults"] = dict(budget=0, slow=0)
+        sc["env"] = []
+        while len(sc["logs"]) < 2:
+            s_, e_ = gen_log(rng, "plain")
+            sc["logs"].append(s_)
+            leo.append(e_)
+            sc["leaders"].append(rng.randrange(nnodes))
+            sc["hw_lag"].append(0)
+        nparts = len(sc["logs"])
+        sc["committed"] = [rng.randrange(shape_first(sc["logs"][q]), leo[q] + 1) for q in range(nparts)]
+        p = rng.randrange(nparts)
+        sc["noleader"] = [[p, rng.choice([0.03, 0.08, 0.15])]]
+        sc["slow_offset_fetch"] = rng.choice([0.1, 0.25, 0.4])
+        sc["tasks"] = [gen_ops(rng, nparts, leo, n=rng.randrange(2, 6), seeks=False, pauses=False)]
+    if cls == "oor-race":
+        # a position the broker reports out of range (stale committed offset) and a seek() that lands while that
+        # report is in flight: the seek wins, the late report is for a position the consumer already left
+        sc["group"] = True
+        sc["policy"] = rng.choice(["earliest", "latest", "none"])
+        sc["faults"] = dict(budget=0, slow=rng.choice([0, 0.002]))
+        sc["env"] = []
+        p = rng.randrange(nparts)
+        first = shape_first(logs[p])
+        sc["committed"] = [None] * nparts
+        sc["committed"][p] = rng.choice([leo[p] + 3, leo[p] + 1, max(0, first - 2) if first >= 2 else leo[p] + 2])
+        sc["oor_race"] = dict(p=p, seek=rng.randrange(first, leo[p] + 1), delay=rng.choice([0.01, 0.03, 0.08]),
+                              at=rng.choice([0.1, 0.5, 0.9]))
+        sc["tasks"] = [gen_ops(rng, nparts, leo, n=rng.randrange(2, 6), seeks=False, pauses=False)]
     if cls == "filter":
         # C08: every way of cutting the log into responses, start offsets inside transactions
         sc["cut"] = rng.choice(["one", "random", "all"])
@@ -214,7 +257,7 @@ def run_scenarios(scs, jobs=12):
 def classify(sc, trace, v):
     if v["accepted"] and not v["bad_l"]:
         return None
-    own = {"txn": "C08", "filter": "C08", "reset": "C13"}.get(sc["cls"], "C03")
+    own = {"txn": "C08", "filter": "C08", "reset": "C13", "oor-race": "C13", "late-lookup": "C13"}.get(sc["cls"], "C03")
     if v["bad_l"] and (v["accepted"] or v["bad_l"] <= v["reached"]):
         ev = trace[v["bad_l"] - 2] if 0 <= v["bad_l"] - 2 < len(trace) else {"e": "init"}
         prop = own if own != "C13" else "C03"
@@ -265,7 +308,10 @@ def conformance(rep: Report, ctx, pid: str, classes: dict[str, int]):
         prop, sig = c
         counts[sig] = counts.get(sig, 0) + 1
         if prop != pid:
-            continue
+            # a seek overridden by a late out-of-range report violates C03 (seek takes effect) and C13 (seek wins) alike
+            if not (sc["cls"] == "oor-race" and pid in ("C03", "C13")):
+                continue
+            sig = pid + sig[3:]
         k = (v["bad_l"] - 2) if (v["bad_l"] and (v["accepted"] or v["bad_l"] <= v["reached"])) else v["reached"] - 1
         rep.violations.append(Violation(sig, {"scenario": sc, "verdict": {x: v[x] for x in ("reached", "need", "bad")},
                                               "event": tr[k] if 0 <= k < len(tr) else None}))
